@@ -463,7 +463,16 @@ def advanced_padding(
         if not is_end:
             slices[axis][0] = cur_width
             slices[axis][1] += cur_width
-        arr = jnp.pad(array=arr, pad_width=pad_width_tuple, mode=cur_mode, **kwargs)
+            arr = jnp.pad(array=arr, pad_width=pad_width_tuple, mode=cur_mode, **kwargs)
+        else:
+            # Pad the high edge from the unpadded extent of this axis. Padding the already
+            # low-padded array is only equivalent for constant/edge modes: with "wrap" the high
+            # edge would otherwise be filled from the low padding instead of the array start.
+            low_width = slices[axis][0]
+            core = jax.lax.slice_in_dim(arr, low_width, arr.shape[axis], axis=axis)
+            high = jnp.pad(array=core, pad_width=pad_width_tuple, mode=cur_mode, **kwargs)
+            high = jax.lax.slice_in_dim(high, core.shape[axis], high.shape[axis], axis=axis)
+            arr = jnp.concatenate([arr, high], axis=axis)
     slices = ensure_slice_tuple(slices)  # type: ignore
     return arr, slices
 
